@@ -1651,6 +1651,103 @@ def oracle_http(check, tier):
                         break
 
 
+# ====================================================================== witnesses (always run, whatever the seed)
+def oracle_witnesses(check, tier):
+    """the inputs of the refutation theorems and of every recorded finding / repaired defect, on a fixed interface"""
+    from lxml import etree
+    from spyne.protocol.xml import XmlDocument
+    from spyne.protocol.soap import Soap11, Soap12
+    desc = {'classes': [
+        {'ns': TNS, 'name': 'Base', 'parent': None, 'fields': [
+            {'name': 'i', 'ty': ('prim', 'int'), 'min': 0, 'max': 1, 'nillable': True, 'kind': 'elem'},
+            {'name': 'w', 'ty': ('prim', 'i32'), 'min': 0, 'max': 1, 'nillable': True, 'kind': 'elem'},
+            {'name': 'u', 'ty': ('prim', 'u8'), 'min': 0, 'max': 1, 'nillable': True, 'kind': 'elem'},
+            {'name': 'l', 'ty': ('prim', 'i64'), 'min': 0, 'max': 1, 'nillable': True, 'kind': 'elem'},
+            {'name': 'b', 'ty': ('prim', 'bool'), 'min': 0, 'max': 1, 'nillable': True, 'kind': 'elem'}]},
+        {'ns': TNS, 'name': 'Holder', 'parent': None, 'fields': [
+            {'name': 'o', 'ty': ('ref', 0), 'min': 0, 'max': 1, 'nillable': True, 'kind': 'elem'},
+            {'name': 'os', 'ty': ('arr', ('ref', 0)), 'min': 0, 'max': 1, 'nillable': True, 'kind': 'elem'},
+            {'name': 'ba', 'ty': ('prim', 'bytes'), 'min': 0, 'max': 1, 'nillable': True, 'kind': 'elem'}]}]}
+    classes = build_spyne(desc)
+    params = [('prim', 'int'), ('prim', 'bool'), ('ref', 0), ('ref', 1), ('prim', 'bytes'), ('prim', 'date')]
+    ns = 'xmlns="urn:t" xmlns:t="urn:t" xmlns:xs="%s" xmlns:xsi="%s"' % (XSD, XSI)
+    xml_docs = [
+        '<f %s><p0 xsi:type="xs:string">abc</p0></f>' % ns,
+        '<f %s><p5 xsi:type="xs:string">abc</p5></f>' % ns,
+        '<f %s><p0 xsi:type="t:integerArray"><integer>1</integer></p0></f>' % ns,
+        '<f %s><p0 xsi:type="t:fResponse"><fResult>x</fResult></p0></f>' % ns,
+        '<f %s><p2 xsi:type="t:Holder"><ba>YWJj</ba></p2></f>' % ns,
+        '<f %s><p3><os xsi:type="t:integerArray"><integer>1</integer></os></p3></f>' % ns,
+        '<f %s xsi:type="t:Holder"><o><i>1</i></o></f>' % ns,
+    ]
+    for pname, pcls, envns in (('XmlDocument', XmlDocument, None), ('Soap11', Soap11, SOAP_ENV), ('Soap12', Soap12, SOAP12_ENV)):
+        for val in (None, 'soft', 'lxml'):
+            app, cap, in_msg = build_app(classes, params, pcls(validator=val), pcls(), header=classes[0] if envns else None)
+            pcs = list(in_msg._type_info.values())
+            for d in xml_docs:
+                body = d if envns is None else '<soap:Envelope xmlns:soap="%s"><soap:Body>%s</soap:Body></soap:Envelope>' % (envns, d)
+                res = drive(app, body.encode(), cap)
+                check.count(('witness-xml', pname, val, d))
+                judge_call(check, 'witness', pname, val, pcs, res, ['witness'],
+                           {'kind': 'xml-request', 'protocol': pname, 'validator': val, 'universe': desc, 'params': params,
+                            'body': body, 'mutations': ['witness'], 'header': 0 if envns else None})
+            if envns:
+                # SOAP headers are not covered by validator=lxml
+                hdr = '<t:Base %s><w>1000000000000000000000000000000</w><u>300</u><l>-9223372036854775809</l></t:Base>' % ns
+                for keep in ('w', 'u', 'l'):
+                    h = etree.fromstring(hdr)
+                    for c in list(h):
+                        if etree.QName(c).localname != keep:
+                            h.remove(c)
+                    body = '<soap:Envelope xmlns:soap="%s"><soap:Header>%s</soap:Header><soap:Body><f %s><p0>1</p0></f></soap:Body></soap:Envelope>' % (
+                        envns, etree.tostring(h).decode(), ns)
+                    res = drive(app, body.encode(), cap)
+                    check.count(('witness-header', pname, val, keep))
+                    if res[0] == 'called' and cap.headers:
+                        bad = native_ok(classes[0], cap.headers[-1], 'header', width=val is not None)
+                        if bad:
+                            check.fail(xml_key('header', pname + '-header', val, [], bad),
+                                       '%s(validator=%r): ctx.in_header is %s where %s is declared (at %s)' % (pname, val, bad[2], bad[1], bad[0]),
+                                       {'kind': 'xml-request', 'protocol': pname, 'validator': val, 'universe': desc, 'params': params,
+                                        'body': body, 'mutations': ['witness'], 'header': 0})
+    dict_docs = [
+        {'p0': 2.0}, {'p1': 1}, {'p1': 0.0}, {'p2': None}, {'p3': {'o': None}}, {'p3': {'os': [None, {'i': 1}]}},
+        {'p2': {'i': 2.0, 'w': 3.0, 'u': 255.0, 'l': -1.0, 'b': 1}}, {'p0': 2.5}, {'p0': float('inf')},
+        {'p4': True}, {'p4': 3}, {'p4': 2.5}, {'p4': 'abc'}, {'p4': [1, 2]}, {'p4': {}}, {'p3': {'ba': 7}},
+    ]
+    for pname in ('json', 'yaml', 'msgpack'):
+        for wrappers in (False, True):
+            prot = make_prot(pname, 'soft', wrappers)
+            app, cap, in_msg = build_app(classes, params, prot, type(prot)())
+            pcs = list(in_msg._type_info.values())
+            for d in dict_docs:
+                if wrappers:
+                    d = dict((k, ({'Base': v} if k == 'p2' and isinstance(v, dict) else
+                                  {'Holder': dict((k2, ({'Base': v2} if k2 == 'o' and isinstance(v2, dict) else v2)) for k2, v2 in v.items())}
+                                  if k == 'p3' and isinstance(v, dict) else v)) for k, v in d.items())
+                doc = {'f': d}
+                if pname == 'msgpack':
+                    doc = {b'f': d}
+                try:
+                    b = encode_body(pname, doc)
+                except Exception:
+                    continue
+                res = drive(app, b, cap)
+                check.count(('witness-dict', pname, wrappers, repr(d)))
+                stat('%s validator=soft: %s' % (type(prot).__name__, 'function entered' if res[0] == 'called' else 'refused'))
+                if res[0] != 'called':
+                    continue
+                for i, (pc, a) in enumerate(zip(pcs, res[1])):
+                    bad = native_ok(pc, a, 'p%d' % i)
+                    if bad:
+                        check.fail(dict_key(type(prot).__name__, 'soft', bad),
+                                   '%s(validator=soft, ignore_wrappers=%s): the service function received %s where %s is declared (at %s); request %r'
+                                   % (type(prot).__name__, not wrappers, bad[2], bad[1], bad[0], doc),
+                                   {'kind': 'dict-request', 'protocol': pname, 'wrappers': wrappers, 'validator': 'soft', 'universe': desc,
+                                    'params': params, 'document': repr(doc), 'mutations': ['witness']})
+                        break
+
+
 # ====================================================================== run
 def run(check):
     tier = check.tier
@@ -1705,6 +1802,7 @@ def run(check):
     check.regen(['xsitype', 'dictleaf', 'numtypes'])
     check.check_sources()
     check.prove('Props.C04', THEOREMS)
+    oracle_witnesses(check, tier)
     corr_xml(check, tier)
     lib.flush_correspondences(check)
     oracle_xml(check, tier)
